@@ -166,8 +166,8 @@ func main() {
 		if len(o.LoadResults) > 0 {
 			res.Count("sets_sent_as_raw_text", 1)
 		}
-		g := lib.Project(o.Go.Dump, keys, true)
-		m := lib.Project(o.Model, keys, true)
+		g := lib.PositionOnly(lib.Project(o.Go.Dump, keys, true))
+		m := lib.PositionOnly(lib.Project(o.Model, keys, true))
 		if d := rescorr.Diff(g, m); d != "" {
 			res.AddDisagreement(lib.Disagreement{Kind: "correspondence", Input: o.Case, Go: g, Model: m, SpecVerdict: "",
 				What: "resolver differs from the model: " + d, Replay: o.Case})
